@@ -2,6 +2,7 @@ import OrdModel.Proofs.IndexMiscNoPanicChain
 import OrdModel.Proofs.IndexMiscNoPanicSats
 import OrdModel.Proofs.IndexMiscNoPanicInputs
 import OrdModel.Proofs.IndexMiscNoPanicLift
+import OrdModel.Proofs.IndexMiscNoPanicAll
 import OrdModel.Index.PanicSitesExpected
 import OrdModel.Generated.PanicSites
 /-
@@ -65,6 +66,25 @@ theorem c16_no_failure_runes (chain : List Block) (h : Valid.validChain chain = 
   have hmem := hp s hs
   have hno := RuneLift.run_noLot_runesOnly cfg hcfg chain (validChain_lotChainOK chain h) s hs
   exact hno (RuneLift.lotSites_eq ▸ hmem)
+
+/-- The sat / address / inscription pass of one block — **any** state, block and configuration, no
+validity hypothesis: never an `err`, and a panic only at one of the 16 sites of
+`utxoResidualSites`. -/
+theorem c16_utxo_pass_partial (cfg : Cfg) (st : State) (blk : Block) :
+    (∀ e, indexUtxoEntries cfg st blk ≠ .err e) ∧
+    (∀ s, indexUtxoEntries cfg st blk = .panic s → s ∈ utxoResidualSites) :=
+  have w := indexUtxoEntries_U cfg st blk
+  ⟨fun _ => w.not_err, fun _ hs => w.panic_mem hs⟩
+
+/-- **Every configuration, `_partial`**: indexing a valid chain never returns an error, and can
+panic only at a failure site of the sat / address / inscription pass (`utxoResidualSites`, 16
+strings, each named with the invariant it needs in `Proofs/IndexMiscNoPanic.lean`).  The rune pass
+of every block of a valid chain is proved to succeed (C08 lift + the stateless rules). -/
+theorem c16_no_failure_partial (chain : List Block) (h : Valid.validChain chain = true) (cfg : Cfg) :
+    (∀ e, run cfg chain ≠ .err e) ∧
+    (∀ s, run cfg chain = .panic s → s ∈ utxoResidualSites) :=
+  have w := run_U cfg chain h
+  ⟨fun _ => w.not_err, fun _ hs => w.panic_mem hs⟩
 
 /-- Clause (b), all inputs: `index_transaction_sats` never hits `expect("insufficient inputs for
 transaction outputs")` when the outputs claim at most the value of the input ranges. -/
@@ -146,6 +166,11 @@ example : runesOnlyCfg.runesOnly := ⟨rfl, rfl, rfl⟩
 
 /-- … and the model indexes it (runes on) without failing -/
 example : (run runesOnlyCfg exampleChain).isOk = true := by decide
+
+def allCfg : Cfg := ⟨true, true, true, true, true, 0, 0, 0⟩
+
+/-- … and with every index on -/
+example : (run allCfg exampleChain).isOk = true := by decide
 
 /-- every transaction of the example satisfies the per-transaction hypothesis -/
 example : ∀ b ∈ exampleChain, ∀ tx ∈ b.txs, RuneSafe b.height tx :=
